@@ -15,6 +15,8 @@ def execute(c):
     rng = random.Random(lib.vid(c))
     if c["kind"] == "pop":
         return morph.observe_pop(c, rng)
+    if c["kind"] == "stem":
+        return morph.observe_stem(c, rng)
     return morph.observe(c, c["motion"] % 2, rng)
 
 
@@ -36,6 +38,11 @@ def run(ctx):
         return morph.observe_edited(c, random.Random(lib.vid(c)))
     sub = [c for c in cases if c["kind"] == "tree"][:: (2 if ctx.tier == "quick" else 1)]
     ctx.run_cases("edited-in-place-after-measuring", sub, path, execute_edited, "Judge_Morph", lambda c, o, w: w + ":after-edit", nontrivial, per_case_timeout=120)
+    # lengths far along a neurite: every k-th tree again behind a stem of 2 * 10^5 lattice units (Morph.StemP): short branches must come out as
+    # short branches, not as differences of two large single-precision numbers
+    stems = [dict(c, kind="stem") for c in cases if c["kind"] == "tree"][:: (12 if ctx.tier == "quick" else 3)]
+    p = ctx.write_cases("behind-a-long-stem", stems)
+    ctx.run_cases("behind-a-long-stem", stems, p, execute, "Judge_Morph", lambda c, o, w: w + ":long-stem", nontrivial, per_case_timeout=120)
     rng = ctx.rng
     trees = [c for c in cases if c["kind"] == "tree"]
     pops = [{"kind": "pop", "trees": [{"P": t["P"], "pos": t["pos"]} for t in rng.sample(trees, rng.randint(2, 3))]} for _ in range(30 if ctx.tier == "quick" else 400)]
